@@ -78,7 +78,8 @@ impl Ctx<'_> {
     /// typed buffer: at least (offset+len)*w bytes, aligned
     fn typed(&self, bi: usize, w: usize, align: usize, extra: usize) -> Result<&[u8], String> {
         let b = &self.d.buffers()[bi];
-        let need = (self.d.offset() + self.d.len() + extra).checked_mul(w).ok_or("overflow")?;
+        let need = self.d.offset().checked_add(self.d.len()).and_then(|x| x.checked_add(extra)).and_then(|x| x.checked_mul(w));
+        let Some(need) = need else { return self.err("offset + len overflows the address space") };
         if b.len() < need {
             return self.err(format!("buffer {} has {} bytes, needs {} for offset {} + len {}", bi, b.len(), need, self.d.offset(), self.d.len()));
         }
@@ -304,7 +305,7 @@ fn validate_node(d: &ArrayData, path: String) -> V {
             }
             let need = (off + len).checked_mul(*n as usize).ok_or("overflow")?;
             if child.len() < need {
-                return c.err(format!("child length {} < (offset {} + len {}) * size {}", child.len(), off, len, n));
+                return c.err(format!("fixed-size-list child shorter than (offset + len) * size (child {} slots, offset {} len {} size {})", child.len(), off, len, n));
             }
             validate_node(child, format!("{}.{}", path, f.name()))?;
             if !f.is_nullable() && check_nullability() {
@@ -327,7 +328,7 @@ fn validate_node(d: &ArrayData, path: String) -> V {
                     return c.err(format!("child {} type {} != field type {}", f.name(), child.data_type(), f.data_type()));
                 }
                 if child.len() < off + len {
-                    return c.err(format!("child {} length {} < offset {} + len {}", f.name(), child.len(), off, len));
+                    return c.err(format!("struct child shorter than offset + len (child {} has {} slots, offset {} len {})", f.name(), child.len(), off, len));
                 }
                 validate_node(child, format!("{}.{}", path, f.name()))?;
                 if !f.is_nullable() && check_nullability() {
@@ -351,18 +352,18 @@ fn validate_node(d: &ArrayData, path: String) -> V {
                 }
                 validate_node(child, format!("{}.{}", path, f.name()))?;
                 if *mode == UnionMode::Sparse && child.len() < off + len {
-                    return c.err(format!("sparse union child {} length {} < offset {} + len {}", f.name(), child.len(), off, len));
+                    return c.err(format!("sparse union child shorter than offset + len (child {} has {} slots, offset {} len {})", f.name(), child.len(), off, len));
                 }
             }
             for i in 0..len {
                 let id = ids[off + i] as i8;
                 let Some(pos) = declared.iter().position(|x| *x == id) else {
-                    return c.err(format!("slot {}: type id {} not declared in {:?}", i, id, declared));
+                    return c.err(format!("union type id not declared (slot {}: id {}, declared {:?})", i, id, declared));
                 };
                 if let Some(ob) = offs {
                     let o = rd_i(ob, off + i, 4);
                     if o < 0 || o >= d.child_data()[pos].len() as i128 {
-                        return c.err(format!("slot {}: dense offset {} outside child {} of length {}", i, o, pos, d.child_data()[pos].len()));
+                        return c.err(format!("union dense offset outside its child (slot {}: offset {}, child {} of length {})", i, o, pos, d.child_data()[pos].len()));
                     }
                 }
             }
@@ -416,7 +417,7 @@ fn validate_node(d: &ArrayData, path: String) -> V {
                 prev = e;
             }
             if len > 0 && prev < (off + len) as i128 {
-                return c.err(format!("last run end {} < offset {} + len {}", prev, off, len));
+                return c.err(format!("last run end below offset + len (last {}, offset {} len {})", prev, off, len));
             }
             validate_node(vals, format!("{}.values", path))?;
         }
